@@ -49,8 +49,13 @@ def session(bdir, sid, seed, corpus, sz, contempt):
     if contempt:
         fixed["Contempt"] = str(contempt)
     tbsession = rnd.random() < 0.3     # the smallest table that can host an on-demand tablebase + a tablebase search right before Clear Hash
+    # a session in which the contempt is changed for some searches and reverted before Clear Hash; small table and a deep probe, so that
+    # anything left behind in the table's addressing or replacement shows up
+    contemptsession = (not tbsession) and (not contempt) and rnd.random() < 0.3
     if tbsession:
         fixed["Hash"] = "8"
+    elif contemptsession:
+        fixed["Hash"] = "1"
     elif rnd.random() < 0.6:
         fixed["Hash"] = "1"        # a small table makes slot replacement (and hence the generation counter) matter early
     A = uci.Engine(os.path.join(bdir, "texel-" + net))
@@ -63,7 +68,12 @@ def session(bdir, sid, seed, corpus, sz, contempt):
         changed = {}
         for i in range(nprior):
             r = rnd.random()
-            if r < 0.08:
+            if contemptsession and i == 0:
+                val = rnd.choice(["150", "-150", "40"])
+                A.send(f"setoption name Contempt value {val}")
+                changed["Contempt"] = val
+                ev.append({"e": "Cmd", "proc": "A", "kind": "setoption", "name": "Contempt", "value": val, "isDefault": False})
+            elif r < 0.08:
                 A.send("ucinewgame")
                 ev.append({"e": "Cmd", "proc": "A", "kind": "newgame"})
             elif r < 0.2:
@@ -111,7 +121,7 @@ def session(bdir, sid, seed, corpus, sz, contempt):
         ev.append({"e": "Cmd", "proc": "A", "kind": "clearhash"})
         A.isready()
         wtm = " w " in probe["fen"]
-        if tbsession:
+        if tbsession or contemptsession:
             go = rnd.choice(["nodes 150000", "nodes 300000", "depth 10"])
         elif rnd.random() < 0.8:
             go = f"depth {rnd.randint(*sz['depths'])}"
